@@ -198,6 +198,11 @@ typecommonreal(struct type *t1, unsigned w1, struct type *t2, unsigned w2)
 	t2 = typepromote(t2, w2);
 	if (t1 == t2)
 		return t1;
+	/* an enumerated type that is not promoted converts like its underlying type */
+	if (t1->kind == TYPEENUM)
+		t1 = t1->base;
+	if (t2->kind == TYPEENUM)
+		t2 = t2->base;
 	if (t1->u.basic.issigned == t2->u.basic.issigned)
 		return typerank(t1) > typerank(t2) ? t1 : t2;
 	if (t1->u.basic.issigned) {
